@@ -22,11 +22,13 @@
 #include <foonathan/memory/smart_ptr.hpp>
 #include <foonathan/memory/tracking.hpp>
 
+#include <cerrno>
 #include <iterator>
 #include <map>
 #include <memory>
 #include <set>
 #include <typeinfo>
+#include <sys/wait.h>
 #include <utility>
 
 namespace fm = foonathan::memory;
@@ -695,15 +697,21 @@ static void drive_core(const case_id& c, verdict& v, int expect_allocs, int poin
                 if (W.ops != points)
                     v.add("success-op-count", fmt("%d construction steps observed, %d expected", W.ops, points));
                 int ctors = W.window_count(true), dtors = W.window_count(false);
-                if (ctors != expect_elems + temps)
+                // scoped helpers (temps == -1) create AND release the object inside the armed call
+                const bool scoped   = temps < 0;
+                const int  ntemps   = scoped ? 0 : temps;
+                const int  early    = scoped ? expect_elems : ntemps;
+                const int  live_exp = scoped ? 0 : expect_elems;
+                const int  held_exp = scoped ? 0 : expect_allocs;
+                if (ctors != expect_elems + ntemps)
                     v.add("success-ctor-count",
-                          fmt("%d elements constructed, exactly %d expected", ctors, expect_elems + temps));
-                if (dtors != temps)
+                          fmt("%d elements constructed, exactly %d expected", ctors, expect_elems + ntemps));
+                if (dtors != early)
                     v.add("success-early-dtor",
-                          fmt("%d element destructions during creation, %d expected", dtors, temps));
-                if (W.live_targets() != expect_elems)
+                          fmt("%d element destructions during creation, %d expected", dtors, early));
+                if (W.live_targets() != live_exp)
                     v.add("success-live-count",
-                          fmt("%d elements alive after creation, %d expected", W.live_targets(), expect_elems));
+                          fmt("%d elements alive after creation, %d expected", W.live_targets(), live_exp));
                 log_state mid  = analyse(flog);
                 int       nall = 0;
                 for (std::size_t i = W.log_mark; i < flog.ev.size(); ++i)
@@ -712,10 +720,10 @@ static void drive_core(const case_id& c, verdict& v, int expect_allocs, int poin
                 if (nall != expect_allocs)
                     v.add("success-alloc-count", fmt("%d allocations during creation, %d expected", nall,
                                                      expect_allocs));
-                if (mid.outstanding.size() != base.outstanding.size() + std::size_t(expect_allocs))
+                if (mid.outstanding.size() != base.outstanding.size() + std::size_t(held_exp))
                     v.add("success-outstanding",
                           fmt("%zu blocks outstanding after creation, %zu expected", mid.outstanding.size(),
-                              base.outstanding.size() + std::size_t(expect_allocs)));
+                              base.outstanding.size() + std::size_t(held_exp)));
                 // every target element lies inside a block handed out for it
                 for (auto& kv : W.live)
                     if (kv.second >= W.first_target)
@@ -734,7 +742,7 @@ static void drive_core(const case_id& c, verdict& v, int expect_allocs, int poin
                     (flog.ev[W.log_mark].op == A_ALLOC_NODE ? g_obs_any_n1_node : g_obs_any_n1_array)++;
                 //--- later: destroyed once, memory released once with matching parameters
                 io.release(obj);
-                dtors = W.window_count(false) - temps;
+                dtors = W.window_count(false) - ntemps;
                 if (dtors != expect_elems)
                     v.add("success-dtor-count",
                           fmt("%d element destructions after release, exactly %d expected", dtors, expect_elems));
@@ -794,7 +802,7 @@ static void drive_core(const case_id& c, verdict& v, int expect_allocs, int poin
                 else if (after.outstanding.size() < base.outstanding.size())
                     v.add("alloc-released-foreign", "a block that existed before the call was released");
                 // constructed elements were inside a block obtained in the window (or held before)
-                int skip = temps; // constructor parameters live on the caller's stack
+                int skip = temps > 0 ? temps : 0; // constructor parameters live on the caller's stack
                 for (std::size_t i = W.ev_mark; i < W.ev.size(); ++i)
                 {
                     const eev& e = W.ev[i];
@@ -1162,6 +1170,17 @@ static std::size_t need_joint(int n, int slack)
 #define JOINT_BV(NAME, NMIN, NMAX, PREP, CTX, ...)                                                                 \
     HELPER_T(NAME, NMIN, NMAX, true, pts_n3, need_joint_bv, true, PREP, CTX, 1, c.n + 3, c.n + 1, 1, W.go();       \
              return __VA_ARGS__;)
+// scoped: creation and release (joint_ptr destructor -> reset()) inside one function, as user code does; with
+// optimisation the compiler sees construction, destruction and the release in one scope
+struct scoped_done
+{
+    void reset() noexcept {}
+};
+#define JOINT_SCOPED(NAME, ...)                                                                                    \
+    HELPER_T(NAME, 0, 16, true, pts_n1, need_joint, true, prep_src<A>, no_ctx, 1, c.n + 1, c.n, -1, W.go(); {      \
+        auto p = __VA_ARGS__;                                                                                      \
+        (void)p;                                                                                                   \
+    } return scoped_done{};)
 // stand-alone joint_array over an existing joint object: memory of the host, no allocator call expected
 #define JARR(NAME, ...)                                                                                            \
     HELPER(NAME, 0, 16, true, pts_n, need_joint, true, prep_host<A>, host_ctx<A>, 0, c.n, c.n, top_obs<A> obs{x};  \
@@ -1251,6 +1270,10 @@ static void add_helpers(std::vector<helper_entry>& out)
     JOINT2("joint.move", fm::allocate_joint<owner>(a, fm::joint_size(joint_cap(c)), std::move(*x.src)))
     JOINT2("clone_joint", fm::clone_joint(a, *x.src))
 
+    JOINT_SCOPED("joint_scoped.size", fm::allocate_joint<owner>(a, fm::joint_size(joint_cap(c)), f_size{}, n))
+    JOINT_SCOPED("joint_scoped.size_value",
+                 fm::allocate_joint<owner>(a, fm::joint_size(joint_cap(c)), f_size_value{}, n, s.elems.empty() ? elem(1) : s.elems[0]))
+
     //--- by-value constructor parameters: failure point BEFORE the joint_type base exists (k = 1) -------------
     JOINT_BV("joint_byvalue.lvalue", 0, 0, prep_src1<A>, no_ctx,
              fm::allocate_joint<bv_owner>(a, fm::joint_size(joint_cap(c)), s.elems[0]))
@@ -1288,6 +1311,7 @@ static void add_helpers(std::vector<helper_entry>& out)
 #undef JOINT2
 #undef JARR
 #undef JOINT_BV
+#undef JOINT_SCOPED
 #undef HELPER_T
 #undef HELPER
 
@@ -1309,6 +1333,11 @@ static void h_overflow(const void*, std::size_t size, const void*)
 }
 
 //=== running ==============================================================================================//
+static bool g_isolate = false; // run every case in a forked child
+static bool g_isolate_set(const std::string& name)
+{
+    return g_isolate = name == "heap";
+}
 struct fixture_entry
 {
     std::string               name;
@@ -1331,6 +1360,7 @@ static void add_fixture(const char* name, std::size_t max_node, std::size_t pool
 }
 static void select_fixture(const fixture_entry& f)
 {
+    g_isolate_set(f.name);
     if (f.pool_node)
     {
         g_pool_node  = f.pool_node;
@@ -1374,6 +1404,129 @@ static void run_case(const helper_entry& h, const case_id& c, verdict& v)
             v.add(r.tag, r.detail);
         v.outcome = outcome_name(out);
     }
+}
+
+// Runs one case in a forked child (used for the heap fixture: a wrong release can corrupt the process heap, which
+// cannot be contained in-process). The child sends its verdict through a pipe.
+static std::string flat(std::string s)
+{
+    for (auto& ch : s)
+        if (ch == '\n' || ch == '\t')
+            ch = ' ';
+    return s;
+}
+static void run_case_isolated(const helper_entry& h, const case_id& c, verdict& v)
+{
+    int fd[2];
+    if (pipe(fd) != 0)
+    {
+        run_case(h, c, v);
+        return;
+    }
+    std::fflush(nullptr);
+    pid_t pid = fork();
+    if (pid == 0)
+    {
+        close(fd[0]);
+        verdict cv;
+        run_case(h, c, cv);
+        std::string out = "O\t" + cv.outcome + "\n" + fmt("N\t%d\t%d\n", cv.nontrivial ? 1 : 0, W.failing_kind);
+        out += fmt("B\t%ld\t%ld\t%ld\t%ld\n", g_obs_top_restored, g_obs_top_not_restored, g_obs_any_n1_node,
+                   g_obs_any_n1_array);
+        out += "K";
+        for (int i = 0; i != 6; ++i)
+            out += fmt("\t%ld", W.kinds[i]);
+        out += "\n";
+        for (auto& i : cv.v)
+            out += "V\t" + flat(i.tag) + "\t" + flat(i.detail) + "\n";
+        for (auto& l : cv.trace)
+            out += "T\t" + flat(l) + "\n";
+        out += "E\n";
+        std::size_t off = 0;
+        while (off < out.size())
+        {
+            ssize_t w = write(fd[1], out.data() + off, out.size() - off);
+            if (w <= 0)
+                break;
+            off += std::size_t(w);
+        }
+        close(fd[1]);
+        std::_Exit(0);
+    }
+    close(fd[1]);
+    std::string in;
+    char        buf[4096];
+    for (;;)
+    {
+        ssize_t r = read(fd[0], buf, sizeof buf);
+        if (r > 0)
+            in.append(buf, std::size_t(r));
+        else if (r == 0 || errno != EINTR)
+            break;
+    }
+    close(fd[0]);
+    int status = 0;
+    while (pid > 0 && waitpid(pid, &status, 0) < 0 && errno == EINTR)
+    {
+    }
+    bool complete = false;
+    long obs[4]   = {g_obs_top_restored, g_obs_top_not_restored, g_obs_any_n1_node, g_obs_any_n1_array};
+    std::size_t pos = 0;
+    while (pos < in.size())
+    {
+        std::size_t e = in.find('\n', pos);
+        if (e == std::string::npos)
+            break;
+        std::string line = in.substr(pos, e - pos);
+        pos              = e + 1;
+        if (line == "E")
+            complete = true;
+        else if (line.size() > 2 && line[0] == 'O')
+            v.outcome = line.substr(2);
+        else if (line[0] == 'N')
+        {
+            int nt = 0, fk = -1;
+            std::sscanf(line.c_str() + 2, "%d\t%d", &nt, &fk);
+            v.nontrivial   = nt != 0;
+            W.failing_kind = fk;
+        }
+        else if (line[0] == 'B')
+            std::sscanf(line.c_str() + 2, "%ld\t%ld\t%ld\t%ld", &obs[0], &obs[1], &obs[2], &obs[3]);
+        else if (line[0] == 'K')
+            std::sscanf(line.c_str() + 2, "%ld\t%ld\t%ld\t%ld\t%ld\t%ld", &W.kinds[0], &W.kinds[1], &W.kinds[2],
+                        &W.kinds[3], &W.kinds[4], &W.kinds[5]);
+        else if (line[0] == 'V')
+        {
+            std::size_t t = line.find('\t', 2);
+            if (t != std::string::npos)
+                v.add(line.substr(2, t - 2), line.substr(t + 1));
+        }
+        else if (line[0] == 'T')
+            v.trace.push_back(line.substr(2));
+    }
+    if (complete)
+    {
+        g_obs_top_restored     = obs[0];
+        g_obs_top_not_restored = obs[1];
+        g_obs_any_n1_node      = obs[2];
+        g_obs_any_n1_array     = obs[3];
+    }
+    else
+    {
+        v.outcome = "process-died";
+        v.add("run-process-died",
+              WIFSIGNALED(status) ?
+                  fmt("the run killed its process with signal %d (e.g. the process heap was corrupted by a wrong release)",
+                      WTERMSIG(status)) :
+                  fmt("the run ended its process with status %d", WEXITSTATUS(status)));
+    }
+}
+static void run_case_auto(const helper_entry& h, const case_id& c, verdict& v)
+{
+    if (g_isolate)
+        run_case_isolated(h, c, v);
+    else
+        run_case(h, c, v);
 }
 
 static bool get_str(const std::string& js, const char* key, std::string& out)
@@ -1459,7 +1612,7 @@ int main(int argc, char** argv)
                     {
                         select_fixture(f);
                         verdict v;
-                        run_case(h, c, v);
+                        run_case_auto(h, c, v);
                         std::printf("case %s\noutcome: %s\n", c.json().c_str(), v.outcome.c_str());
                         for (auto& l : v.trace)
                             std::printf("  %s\n", l.c_str());
@@ -1512,7 +1665,7 @@ int main(int argc, char** argv)
                         c.k      = k;
                         c.slack  = slack;
                         verdict v;
-                        run_case(h, c, v);
+                        run_case_auto(h, c, v);
                         ++evaluations;
                         ++per_helper[h.name];
                         if (v.outcome == "success")
@@ -1528,7 +1681,7 @@ int main(int argc, char** argv)
                         {
                             // re-check once: the verdict must be reproducible
                             verdict v2;
-                            run_case(h, c, v2);
+                            run_case_auto(h, c, v2);
                             std::set<std::string> t1, t2;
                             for (auto& i : v.v)
                                 t1.insert(i.tag);
@@ -1564,7 +1717,7 @@ int main(int argc, char** argv)
                             ++nsamples;
                             verdict vs;
                             g_verbose = true;
-                            run_case(h, c, vs);
+                            run_case_auto(h, c, vs);
                             g_verbose = false;
                             jarr tr;
                             for (auto& l : vs.trace)
